@@ -70,10 +70,10 @@ pub struct Args {
     pub pred_text: String,
 }
 
-type F1 = (&'static str, Box<dyn Fn(&[u8], &Args) -> String>);
-type F2 = (&'static str, Box<dyn Fn(&[u8], &[u8], &Args) -> String>);
+pub type F1 = (&'static str, Box<dyn Fn(&[u8], &Args) -> String>);
+pub type F2 = (&'static str, Box<dyn Fn(&[u8], &[u8], &Args) -> String>);
 
-fn unary_functions() -> Vec<F1> {
+pub fn unary_functions() -> Vec<F1> {
     let mut v: Vec<F1> = Vec::new();
     v.push(("array_length", Box::new(|d, _| format!("{:?}", jsonb::array_length(d)))));
     v.push(("get_by_index", Box::new(|d, a| ob(jsonb::get_by_index(d, a.index)))));
@@ -199,7 +199,7 @@ fn unary_functions() -> Vec<F1> {
     v
 }
 
-fn binary_functions() -> Vec<F2> {
+pub fn binary_functions() -> Vec<F2> {
     let mut v: Vec<F2> = Vec::new();
     v.push(("contains", Box::new(|a, b, _| format!("{}", jsonb::contains(a, b)))));
     v.push(("compare", Box::new(|a, b, _| format!("{:?}", jsonb::compare(a, b).ok()))));
@@ -230,7 +230,7 @@ fn binary_functions() -> Vec<F2> {
 }
 
 /// text of a document: compact or with spelling variants, never starting with a space
-fn text_for(t: &Tree, rng: &mut Rng) -> Vec<u8> {
+pub fn text_for(t: &Tree, rng: &mut Rng) -> Vec<u8> {
     let st = match rng.below(3) {
         0 => refjson::COMPACT,
         1 => refjson::Style { ws: 1, esc: 1, numvar: true },
@@ -266,7 +266,7 @@ fn special_doc(rng: &mut Rng) -> Tree {
     }
 }
 
-fn compare_obs(ctx: &mut Ctx, fname: &str, combo: &str, base: &Result<String, crate::monitor::Panicked>, got: &Result<String, crate::monitor::Panicked>, info: &dyn Fn() -> String) {
+pub fn compare_obs(ctx: &mut Ctx, fname: &str, combo: &str, base: &Result<String, crate::monitor::Panicked>, got: &Result<String, crate::monitor::Panicked>, info: &dyn Fn() -> String) {
     match (base, got) {
         (Ok(b), Ok(g)) => {
             if b != g {
@@ -278,7 +278,7 @@ fn compare_obs(ctx: &mut Ctx, fname: &str, combo: &str, base: &Result<String, cr
     }
 }
 
-fn trunc(s: &str) -> String {
+pub fn trunc(s: &str) -> String {
     if s.len() > 500 {
         let cut = s.char_indices().take_while(|(i, _)| *i < 500).last().map(|(i, _)| i).unwrap_or(0);
         format!("{}…", &s[..cut])
